@@ -29,11 +29,14 @@ impl WakerList {
     pub uninterp spec fn last_pop(&self) -> PopObs;
     pub uninterp spec fn log(&self) -> Seq<usize>;
     pub uninterp spec fn lid(&self) -> int;
+    /// how often pop() has answered "empty" so far (never reset: C13 uses it to tell a poll that stopped because the queue
+    /// ran dry from one that stopped early)
+    pub uninterp spec fn empties(&self) -> nat;
 
     /// everything but the known-queued set is unchanged
     pub open spec fn same_but_known(&self, o: &WakerList) -> bool {
         &&& self.cap() == o.cap() && self.registered() == o.registered() && self.last_pop() == o.last_pop()
-        &&& self.log() == o.log() && self.lid() == o.lid()
+        &&& self.log() == o.log() && self.lid() == o.lid() && self.empties() == o.empties()
     }
 
     #[verifier::external_body]
@@ -55,13 +58,14 @@ impl WakerList {
     pub fn register(&mut self, waker: &Waker)
         ensures final(self).cap() == old(self).cap(), final(self).known() == old(self).known(),
             final(self).registered() == Some(waker_id(waker)), final(self).last_pop() == PopObs::Fresh,
-            final(self).log() == old(self).log(), final(self).lid() == old(self).lid(),
+            final(self).log() == old(self).log(), final(self).lid() == old(self).lid(), final(self).empties() == old(self).empties(),
     { unimplemented!() }
 
     /// `unsafe fn pop(&self)` — "requires mutual exclusion (only one thread can call this)"
     #[verifier::external_body]
     pub fn pop(&mut self) -> (r: ReadySlot<(usize, ManuallyDrop<Waker>)>)
         ensures final(self).cap() == old(self).cap(), final(self).registered() == old(self).registered(), final(self).lid() == old(self).lid(),
+            final(self).empties() == old(self).empties() + (if r is None { 1nat } else { 0nat }),
             match r {
                 ReadySlot::Ready((i, w)) => i < old(self).cap() && final(self).known() == old(self).known().remove(i)
                     && final(self).log() == old(self).log().push(i) && final(self).last_pop() == PopObs::Got
